@@ -65,6 +65,9 @@ type c06Case struct {
 	CustomNF       bool   `json:"custom_not_found"`
 	CustomNA       bool   `json:"custom_not_allowed"`
 	InterceptFirst bool   `json:"intercept_option_first,omitempty"` // InterceptAll listed before the other options
+	// Late > 0: the last Late routes of the table are registered only after the first round of requests was served (the
+	// first round is judged against the shorter table, the second against the full one)
+	Late int `json:"late_registrations,omitempty"`
 }
 
 func c06Gen(tier string, emit func(c06Case)) {
@@ -98,6 +101,9 @@ func c06Gen(tier string, emit func(c06Case)) {
 	rec(nil)
 	for _, t := range tables {
 		for o := 0; o < 16; o++ {
+			for late := 1; late <= len(t) && late <= 2; late++ {
+				emit(c06Case{Routes: t, NotAllowed: o&1 != 0, Fallback: o&2 != 0, Strict: o&4 != 0, Cache: o&8 != 0, Late: late})
+			}
 			for _, ic := range c06Intercepts {
 				for h := 0; h < 4; h++ {
 					emit(c06Case{Routes: t, NotAllowed: o&1 != 0, Fallback: o&2 != 0, Strict: o&4 != 0, Cache: o&8 != 0, Intercept: ic, CustomNF: h&1 != 0, CustomNA: h&2 != 0})
@@ -156,7 +162,14 @@ func c06Run(c c06Case, st *fw.Stats) []fw.Viol {
 		}
 	}
 	rec := &hitRec{}
-	r, pv := buildRouter(defs, rec, opts...)
+	early := len(defs) - c.Late
+	tbFull := tb
+	if c.Late > 0 {
+		if tb, err = refmodel.NewTable(defs[:early], mo); err != nil {
+			panic(err)
+		}
+	}
+	r, pv := buildRouter(defs[:early], rec, opts...)
 	if pv != nil {
 		add("register:panic", fmt.Sprintf("config %+v: registration panicked: %v", c, pv))
 		return viols
@@ -175,11 +188,31 @@ func c06Run(c c06Case, st *fw.Stats) []fw.Viol {
 		})
 	}
 	cfg := func() string {
+		if c.Late > 0 {
+			return fmt.Sprintf("table [%s] (the last %d registered after a first round of all requests) options{notAllowed=%v fallback=%v strict=%v cache=%v}", defsString(defs), c.Late, c.NotAllowed, c.Fallback, c.Strict, c.Cache)
+		}
 		return fmt.Sprintf("table [%s] options{notAllowed=%v fallback=%v strict=%v cache=%v intercept=%q(listed first=%v) customNF=%v customNA=%v}", defsString(defs), c.NotAllowed, c.Fallback, c.Strict, c.Cache, c.Intercept, c.InterceptFirst, c.CustomNF, c.CustomNA)
 	}
 	// two rounds; inside a round all methods are tried on one path before the next path, so that
 	// every method is requested after every other method on the same path (cache history matters)
 	for round := 0; round < 2; round++ {
+		if round == 1 && c.Late > 0 {
+			if pv := try(func() {
+				for i := early; i < len(defs); i++ {
+					i := i
+					rt := r.Add(defs[i].Path, func(ctx *rux.Context) {
+						rec.idx, rec.params = i, canonParams(ctx.Params)
+						rec.n++
+						ctx.WriteString(fmt.Sprintf("%d|%s", i, canonParams(ctx.Params)))
+					}, defs[i].Methods...)
+					rt.Opts = map[string]any{"i": i}
+				}
+			}); pv != nil {
+				add("register:panic", fmt.Sprintf("%s: the late registration panicked: %v", cfg(), pv))
+				return viols
+			}
+			tb = tbFull
+		}
 		for _, p := range c06Paths {
 			for _, m := range c06Methods {
 				want := tb.Resolve(m, p)
@@ -281,7 +314,7 @@ func c06Run(c c06Case, st *fw.Stats) []fw.Viol {
 var c06Spec = fw.Spec[c06Case]{
 	ID:    "C06",
 	Level: "model_checking",
-	Rule: "complete product: ordered tables of <=K routes from an 13-route pool x 2^4 option subsets {HandleMethodNotAllowed,HandleFallbackRoute,StrictLastSlash,caching (capacity 1 or 64)} x 6 InterceptAll values (listed after and before the other options) x {default,custom} NotFound x {default,custom} NotAllowed; per configuration 10 methods x 8 paths, each request twice through Match and ServeHTTP, vs refmodel.Resolve; " +
+	Rule: "complete product: ordered tables of <=K routes from an 13-route pool x 2^4 option subsets {HandleMethodNotAllowed,HandleFallbackRoute,StrictLastSlash,caching (capacity 1 or 64)} x 6 InterceptAll values (listed after and before the other options) (+ every table with its last 1 or 2 routes registered only after a first round of all requests) x {default,custom} NotFound x {default,custom} NotAllowed; per configuration 10 methods x 8 paths, each request twice through Match and ServeHTTP, vs refmodel.Resolve; " +
 		"non-trivial = a request that is not a direct match (HEAD->GET, fallback, 405, 404)",
 	Assume: []string{"routes, paths and option values come from the stated alphabets"},
 	Bounds: func(tier string) map[string]any {
